@@ -1,12 +1,26 @@
-"""Mutant / equivalent-variant corpora (DESIGN.md section 6).  Variants live in memory or in a scratch
-directory outside /repo and /verif; nothing is imported or executed - variants are only parsed and compiled."""
+"""Mutant / equivalent-variant corpora (DESIGN.md section 6).
+
+Variants are built in memory (source override of one file) - nothing is written into /repo, nothing
+is imported or executed; each variant is byte-compiled to make sure it is a valid program.
+
+A mutant is a text substitution that must match exactly once in today's source; the check of every
+property listed in `expect` must report at least one violation that is not a known finding.
+An equivalent variant must leave the verdict of every listed property unchanged (no new violation,
+no analysis error)."""
+import importlib
 import os
 import sys
+import json
+from concurrent.futures import ProcessPoolExecutor
+
+from ..model import Repo, AnalysisError
+from ..report import Check, load_known
+
+HERE = os.path.dirname(os.path.abspath(__file__))
 
 
 def sanity():
     """setup-time sanity: the program model parses the repository and the engines load."""
-    from ..model import Repo
     r = Repo(os.environ.get("VERIF_REPO", "/repo"))
     st = r.stats()
     print(f"sa: parsed {st['files']} files, {st['classes']} classes, {st['functions']} functions")
@@ -16,5 +30,139 @@ def sanity():
     return 0
 
 
-def run_for(pid, repo_root):
-    return {}
+def load_corpus():
+    from . import mutants, equivalents
+    return mutants.MUTANTS, equivalents.EQUIVALENTS
+
+
+def verdict(pid, repo_root, overrides):
+    """-> ('ok'|'violation'|'error', detail)"""
+    mod = importlib.import_module(f"sa.rules.{pid.lower()}")
+    try:
+        repo = Repo(repo_root, overrides=overrides)
+        chk = Check(pid, repo, "quick")
+        mod.run(chk)
+        known = load_known(pid)
+        bad = [o for o in chk.obligations if not o["ok"] and o["key"] not in known]
+        if len(chk.obligations) < mod.FLOOR:
+            return "error", f"floor {mod.FLOOR} not met ({len(chk.obligations)})"
+        if bad:
+            return "violation", [o["key"] for o in bad][:6]
+        return "ok", None
+    except AnalysisError as e:
+        return "error", str(e)[:200]
+    except Exception as e:  # checker crash counts as error
+        return "error", f"crash {type(e).__name__}: {e}"[:200]
+
+
+def apply_subst(repo_root, relpath, old, new, count=1, anchor=None):
+    path = os.path.join(repo_root, relpath)
+    with open(path, encoding="utf-8") as fh:
+        src = fh.read()
+    if anchor is not None:
+        if src.count(anchor) != 1:
+            return None, f"anchor occurs {src.count(anchor)} times, expected 1"
+        start = src.index(anchor)
+        pos = src.find(old, start)
+        if pos < 0:
+            return None, "pattern not found after anchor"
+        out = src[:pos] + new + src[pos + len(old):]
+    else:
+        n = src.count(old)
+        if n != count:
+            return None, f"pattern occurs {n} times, expected {count}"
+        out = src.replace(old, new)
+    try:
+        compile(out, relpath, "exec")
+    except SyntaxError as e:
+        return None, f"variant does not compile: {e}"
+    return out, None
+
+
+def _run_variant(args):
+    kind, vid, pids, repo_root, relpath, old, new, count, anchor = args
+    src, err = apply_subst(repo_root, relpath, old, new, count, anchor)
+    if src is None:
+        return kind, vid, "stale", err, {}
+    res = {}
+    for pid in pids:
+        res[pid] = verdict(pid, repo_root, {relpath: src})
+    return kind, vid, "run", None, res
+
+
+def run_for(pid, repo_root, jobs=None):
+    """thorough tier: run the property's slice of the corpora; returns evidence keys."""
+    muts, eqs = load_corpus()
+    tasks = []
+    for m in muts:
+        if pid in m["expect"]:
+            tasks.append(("mutant", m["id"], [pid], repo_root, m["file"], m["old"], m["new"], m.get("count", 1), m.get("anchor")))
+    for e in eqs:
+        if pid in e["props"] or "*" in e["props"]:
+            tasks.append(("equiv", e["id"], [pid], repo_root, e["file"], e["old"], e["new"], e.get("count", 1), e.get("anchor")))
+    failures = []
+    stale = []
+    caught = 0
+    silent = 0
+    samples = []
+    jobs = jobs or min(16, os.cpu_count() or 4)
+    if tasks:
+        with ProcessPoolExecutor(max_workers=jobs) as ex:
+            results = list(ex.map(_run_variant, tasks))
+    else:
+        results = []
+    for kind, vid, state, err, res in results:
+        if state == "stale":
+            stale.append(f"{kind} {vid}: {err}")
+            continue
+        v, det = res[pid]
+        if kind == "mutant":
+            if v == "violation":
+                caught += 1
+                if len(samples) < 6:
+                    samples.append({"mutant": vid, "reported": det})
+            else:
+                failures.append(f"mutant {vid} not reported by {pid}: {v} {det}")
+        else:
+            if v == "ok":
+                silent += 1
+            else:
+                failures.append(f"equivalent variant {vid} changed the verdict of {pid}: {v} {det}")
+    return {"selftest_mutants_caught": caught, "selftest_equivalents_silent": silent,
+            "selftest_stale": stale, "selftest_failures": failures, "selftest_samples": samples,
+            "selftest_variants": len(tasks)}
+
+
+def main(argv):
+    """python -m sa.selftest.corpus [pid ...] : run the corpora and print a table"""
+    repo_root = os.environ.get("VERIF_REPO", "/repo")
+    muts, eqs = load_corpus()
+    pids = argv or sorted({p for m in muts for p in m["expect"]})
+    tasks = []
+    for m in muts:
+        ps = [p for p in m["expect"] if p in pids]
+        if ps:
+            tasks.append(("mutant", m["id"], ps, repo_root, m["file"], m["old"], m["new"], m.get("count", 1), m.get("anchor")))
+    for e in eqs:
+        ps = pids if "*" in e["props"] else [p for p in e["props"] if p in pids]
+        if ps:
+            tasks.append(("equiv", e["id"], ps, repo_root, e["file"], e["old"], e["new"], e.get("count", 1), e.get("anchor")))
+    with ProcessPoolExecutor(max_workers=min(16, os.cpu_count() or 4)) as ex:
+        results = list(ex.map(_run_variant, tasks))
+    bad = 0
+    for kind, vid, state, err, res in results:
+        if state == "stale":
+            print(f"STALE   {kind:6s} {vid}: {err}")
+            bad += 1
+            continue
+        for pid, (v, det) in res.items():
+            good = (v == "violation") if kind == "mutant" else (v == "ok")
+            if not good:
+                bad += 1
+            print(f"{'ok  ' if good else 'FAIL'}    {kind:6s} {vid:44s} {pid} -> {v} {det if (not good or kind == 'mutant') else ''}"[:230])
+    print(f"{len(results)} variants, {bad} problems")
+    return 1 if bad else 0
+
+
+if __name__ == "__main__":
+    sys.exit(main(sys.argv[1:]))
